@@ -170,7 +170,12 @@ func (e c16Env) exec(a c16Assign, dbOverride, logLayoutFor string, cmd ...string
 			env["HR_CONFIG"] = filepath.Join(e.dir, "hr.conf")
 		case "default":
 			os.MkdirAll(filepath.Join(e.home, ".hranoprovod"), 0o755)
-			os.WriteFile(filepath.Join(e.home, ".hranoprovod", "config"), []byte(conf), 0o644)
+			p := filepath.Join(e.home, ".hranoprovod", "config")
+			os.WriteFile(p, []byte(conf), 0o644)
+			// whatever permission bits let the user read it (created under umask 002, shared with a group, read-only):
+			// the file is the user's configuration
+			os.Chmod(p, []os.FileMode{0o644, 0o664, 0o666, 0o600, 0o444, 0o640, 0o660}[len(a.String())%7])
+			os.Chmod(filepath.Join(e.home, ".hranoprovod"), []os.FileMode{0o755, 0o775, 0o700, 0o777}[len(conf)%4])
 		}
 	}
 	if a.alsoDefault != "" {
